@@ -84,6 +84,9 @@ func ParseWriteSingleCoilRequestTCP(data []byte) (*WriteSingleCoilRequestTCP, er
 	if err != nil {
 		return nil, err
 	}
+	if len(data) < 12 {
+		return nil, newErrorParseTCPTooShort(header, data, FunctionWriteSingleCoil)
+	}
 	unitID := data[6]
 	if data[7] != FunctionWriteSingleCoil {
 		tmpErr := NewErrorParseTCP(ErrIllegalFunction, "received function code in packet is not 0x05")
